@@ -269,9 +269,24 @@ def used_design_names(case) -> list[str]:
     return [n for n in design_names(case) if n in ins]
 
 
+def cons_fmt(c) -> tuple[Fraction, bool]:
+    """(value a, positive) of a user constraint: c(x) = a, c(x) <= a or (positive) c(x) >= a."""
+    a = P(c[2]) if len(c) > 2 else Fraction(0)
+    pos = bool(c[3]) if len(c) > 3 else False
+    return a, pos
+
+
+def apply_fmt(c, val, jac):
+    """Standard form stored by the problem: c - a (= 0 or <= 0), a - c <= 0 for a positive inequality."""
+    a, pos = cons_fmt(c)
+    if pos:
+        return [a - v for v in val], [[-t for t in row] for row in jac]
+    return [v - a for v in val], jac
+
+
 def relevant_disciplines(case) -> set[str]:
     """Disciplines that contribute to the objective or to a constraint (directly or through couplings)."""
-    req = {case["objective"], *(o for ns, _ in case["constraints"] for o in ns)}
+    req = {case["objective"], *(o for c in case["constraints"] for o in c[0])}
     rel = {d["name"] for d in case["discs"] if req & set(out_names(d))}
     changed = True
     while changed:
@@ -466,10 +481,7 @@ def gen_case(rng: common.Rng, topo: str | None = None) -> dict[str, Any]:
             size[f"p{i + 1}"] = rng.pick([1, 2])
             params[i].append(f"p{i + 1}")
     for i in range(n):
-        if not dins[i]:
-            # every discipline reads at least one design variable (JacobianAssembly cannot differentiate a
-            # function none of whose dependency paths from the design variables crosses a coupling: upstream
-            # limitation of the coupled derivatives, outside C17)
+        if not (dins[i] or cin[i] or params[i]):
             dins[i].append("xs")
     # anchor: the exact solution is dyadic at (x0, y0)
     cpl_all = sorted({k for got in cin for k in got})
@@ -600,6 +612,10 @@ def gen_case(rng: common.Rng, topo: str | None = None) -> dict[str, Any]:
         if len(ons) >= 2:
             pair = rng.sample(ons, 2)
             cons.append([pair, "ineq"])
+    for c in cons:
+        if rng.chance(0.4):
+            c.append(rat(_dy(rng, -2, 2, 4)))
+            c.append(c[1] == "ineq" and rng.chance(0.5))
     case["constraints"] = cons
     # well-posed optimisation problem: every discipline contributes to the objective or to a constraint
     # (otherwise some design variable has no influence at all on the problem)
@@ -681,8 +697,11 @@ def valid_case(case) -> bool:
         # the objective is scalar, every function comes from one discipline
         if var_size(case, case["objective"]) != 1:
             return False
-        for names, ty in case["constraints"]:
+        for c in case["constraints"]:
+            names, ty = c[0], c[1]
             if ty not in ("eq", "ineq") or not names:
+                return False
+            if cons_fmt(c)[1] and ty != "ineq":
                 return False
             d = producer(case, names[0])
             if any(o not in out_names(d) for o in names) or len(set(names)) != len(names):
@@ -691,8 +710,6 @@ def valid_case(case) -> bool:
             return False
         dsn_design = set(design_names(case))
         for d in case["discs"]:
-            if not dsn_design & set(in_sizes(d)):
-                return False
             outs_d = dict((o, sp) for o, sp in d["outs"])
             for o in d.get("declare_linear", []):
                 if o not in outs_d or outs_d[o].get("quad"):
@@ -753,9 +770,7 @@ MDA_SETTINGS = {"tolerance": 1e-14, "max_mda_iter": 300}
 
 
 def configs(case) -> list[dict[str, Any]]:
-    # without any coupling only MDAChain (MDF's default) is a meaningful inner MDA: JacobianAssembly cannot
-    # differentiate an MDAJacobi/MDAGaussSeidel over zero couplings (upstream limitation, outside C17)
-    cfgs: list[dict[str, Any]] = [{"form": "MDF", "mda": m} for m in (MDAS if couplings(case) else ("MDAChain",))]
+    cfgs: list[dict[str, Any]] = [{"form": "MDF", "mda": m} for m in MDAS]
     has_value = all(v["value"] is not None for v in case["ds"])
     for norm in (True, False):
         cfgs.append({"form": "IDF", "norm": norm, "eq": False})
@@ -796,8 +811,10 @@ def make_formulation(case, cfg):
     form = MDOFormulationFactory().create(
         cfg["form"], disciplines=discs, objective_name=case["objective"], design_space=ds, **settings
     )
-    for names, ty in case["constraints"]:
-        form.add_constraint(names if len(names) > 1 else names[0], constraint_type=ty)
+    for c in case["constraints"]:
+        names, ty = c[0], c[1]
+        a, pos = cons_fmt(c)
+        form.add_constraint(names if len(names) > 1 else names[0], constraint_type=ty, value=float(a), positive=pos)
     return form, discs
 
 
@@ -936,8 +953,8 @@ def idf_constraint_plan(case):
     for d in case["discs"]:
         if any(o in cpl for o in out_names(d)):
             plan.append(("consistency", d))
-    for names, _ in case["constraints"]:
-        plan.append(("function", names))
+    for c in case["constraints"]:
+        plan.append(("function", c))
     return plan
 
 
@@ -964,7 +981,7 @@ def oracle_config(case, obs) -> list[tuple[str, str]]:
         return bad
     names = exp_names
     n_user = len(case["constraints"])
-    plan = idf_constraint_plan(case) if form == "IDF" else [("function", ns) for ns, _ in case["constraints"]]
+    plan = idf_constraint_plan(case) if form == "IDF" else [("function", c) for c in case["constraints"]]
     if obs["n_funcs"] != 1 + len(plan):
         bad.append((f"{form.lower()}-constraint-count", f"{ck}: {obs['n_funcs'] - 1} constraints instead of {len(plan)} ({n_user} user)"))
         return bad
@@ -986,7 +1003,7 @@ def oracle_config(case, obs) -> list[tuple[str, str]]:
         if form == "IDF":
             exact = is_dyadic_small(rec["point"])
             # objective and user functions
-            specs = [("objective", [case["objective"]])] + [
+            specs = [("objective", [[case["objective"]], "obj"])] + [
                 (("consistency" if kind == "consistency" else "constraint"), what) for kind, what in plan
             ]
             for k, (kind, what) in enumerate(specs):
@@ -1000,7 +1017,7 @@ def oracle_config(case, obs) -> list[tuple[str, str]]:
                     )
                     b = Fraction(0) if exact and (pow2 or not cfg["norm"]) else EBOUND
                 else:
-                    ev, ej = expect_idf_function(case, what, names, point)
+                    ev, ej = apply_fmt(what, *expect_idf_function(case, what[0], names, point))
                     b = Fraction(0) if exact else EBOUND
                 m = cmp_vec(rec["vals"][k], ev, b)
                 if m:
@@ -1025,11 +1042,11 @@ def oracle_config(case, obs) -> list[tuple[str, str]]:
             sol = exact_mda(case, x)
             if sol is None:
                 continue
-            specs = [("objective", [case["objective"]])] + [("constraint", ns) for ns, _ in case["constraints"]]
+            specs = [("objective", [[case["objective"]], "obj"])] + [("constraint", c) for c in case["constraints"]]
             # DisciplinaryOpt on a feed-forward system and MDF with MDAChain on a system without strong coupling
             # involve no fixed-point iteration, but the chain rule / coupled adjoint go through a linear solve
             for k, (kind, what) in enumerate(specs):
-                ev, ej = expect_mdf_function(case, what, names, x, sol)
+                ev, ej = apply_fmt(what, *expect_mdf_function(case, what[0], names, x, sol))
                 m = cmp_vec(rec["vals"][k], ev, BOUND)
                 if m:
                     bad.append((f"{form.lower()}-{kind}-value", f"{where}: {kind} {k - 1 if k else ''} value {m}"))
@@ -1226,13 +1243,17 @@ def model_lines_for_config(case, obs) -> list[tuple[str, Any]]:
         return out
     names = obs["names"]
     funcs: list[tuple[str, str]] = [("f", case["objective"])]
+    fmt_tok = {}
     if form == "IDF":
         cpl = set(couplings(case))
         for d in case["discs"]:
             if any(o in cpl for o in out_names(d)):
                 funcs.append(("c", d["name"]))
-    for ns, _ in case["constraints"]:
-        funcs.append(("f", ",".join(ns)))
+    for c in case["constraints"]:
+        funcs.append(("f", ",".join(c[0])))
+        a, pos = cons_fmt(c)
+        if len(c) > 2:
+            fmt_tok[len(funcs) - 1] = f" a={rat(a)} pos={int(pos)}"
     udn = used_design_names(case)
     for rec in obs["evals"]:
         if "error" in rec:
@@ -1240,7 +1261,7 @@ def model_lines_for_config(case, obs) -> list[tuple[str, Any]]:
         xv = [F(a) for n in names for a in rec["point"][n]]
         if form == "IDF":
             for k, (kind, what) in enumerate(funcs):
-                line = f"eval idf {int(cfg['norm'])} {kind} {what} x={_rl(xv)}"
+                line = f"eval idf {int(cfg['norm'])} {kind} {what} x={_rl(xv)}" + fmt_tok.get(k, "")
                 out.append((line, ("eval", rec, k, is_dyadic_small(rec["point"]), False)))
         else:
             x = {n: [F(a) for a in rec["point"][n]] for n in udn}
@@ -1252,7 +1273,7 @@ def model_lines_for_config(case, obs) -> list[tuple[str, Any]]:
             ytok = " ".join(f"y.{k}={_rl(ystar[k])}" for k in cp)
             wtok = " ".join(f"w.{k}.{n}={_mat(W[k, n])}" for k in cp for n in names)
             for k, (kind, what) in enumerate(funcs):
-                line = f"eval {tag} {what} x={_rl(xv)} {ytok} {wtok}".rstrip()
+                line = f"eval {tag} {what} x={_rl(xv)} {ytok} {wtok}".rstrip() + fmt_tok.get(k, "")
                 out.append((line, ("eval", rec, k, False, True)))
     return out
 
@@ -1267,8 +1288,8 @@ def parse_model_eval(ans: str):
     return v, j
 
 
-def compare_with_model(case, obs_list, mask_recs, res: Result) -> list[dict[str, Any]]:
-    """Run the Lean driver on the case and diff with the implementation; returns the disagreements."""
+def model_protocol(case, obs_list, mask_recs) -> tuple[list[str], list[Any], int]:
+    """Protocol lines of one case: definitions (answers `ok`), then one line per observation."""
     lines = case_lines(case)
     n_def = len(lines)
     plan: list[Any] = []
@@ -1276,14 +1297,18 @@ def compare_with_model(case, obs_list, mask_recs, res: Result) -> list[dict[str,
         for line, exp in model_lines_for_config(case, obs):
             lines.append(line)
             plan.append(exp)
-    for op, rec, names in mask_recs:
+    for op, rec, _names in mask_recs:
         alln = ",".join(op["all"]) or "[]"
         mk = ",".join(op["masking"]) or "[]"
         lines.append(f"mask {alln} {mk}")
         plan.append(("mask", op, rec))
         lines.append(f"unmask {alln} {mk} {_rl(P(a) for a in op['x'])} {op['rows']} {int(op['full'])}")
         plan.append(("unmask", op, rec))
-    answers = common.run_lean_driver(PID, lines)
+    return lines, plan, n_def
+
+
+def diff_model(lines, plan, n_def, answers, res: Result) -> list[dict[str, Any]]:
+    """Diff the model's answers with the implementation's observations; returns the disagreements."""
     dis: list[dict[str, Any]] = []
     for a in answers[:n_def]:
         if a != "ok":
@@ -1292,7 +1317,10 @@ def compare_with_model(case, obs_list, mask_recs, res: Result) -> list[dict[str,
         kind = exp[0]
         if kind == "names":
             obs = exp[1]
-            impl = "E:value" if obs.get("error") == "E:value" else (",".join(obs.get("names", [])) or "[]") if "error" not in obs else obs["error"]
+            if "error" in obs:
+                impl = obs["error"]
+            else:
+                impl = ",".join(obs.get("names", [])) or "[]"
             if impl != ans:
                 dis.append({"line": line, "model": ans, "impl": impl, "cfg": cfg_key(obs["cfg"])})
             else:
@@ -1304,13 +1332,9 @@ def compare_with_model(case, obs_list, mask_recs, res: Result) -> list[dict[str,
                 dis.append({"line": line, "model": ans, "impl": "values"})
                 continue
             b = BOUND if mda else (Fraction(0) if exact else EBOUND)
-            if not exact and not mda:
-                b = EBOUND
-            # non power-of-two normalisation: rounded
-            if line.startswith("eval idf 1 c") and b == 0:
-                b = EBOUND if any(Fraction(t).denominator & (Fraction(t).denominator - 1) for t in []) else b
             m = cmp_vec(rec["vals"][k], pm[0], b) or cmp_mat(rec["jacs"][k], pm[1], b)
             if m and b == 0 and line.startswith("eval idf 1 c"):
+                # normalisation by a scale that is not a power of two is rounded
                 m = cmp_vec(rec["vals"][k], pm[0], EBOUND) or cmp_mat(rec["jacs"][k], pm[1], EBOUND)
             if m:
                 dis.append({"line": line, "model": ans[:400], "impl": {"v": rec["vals"][k], "j": rec["jacs"][k]}, "diff": m})
@@ -1336,6 +1360,11 @@ def compare_with_model(case, obs_list, mask_recs, res: Result) -> list[dict[str,
             else:
                 res.traces_validated += 1
     return dis
+
+
+def compare_with_model(case, obs_list, mask_recs, res: Result) -> list[dict[str, Any]]:
+    lines, plan, n_def = model_protocol(case, obs_list, mask_recs)
+    return diff_model(lines, plan, n_def, common.run_lean_driver(PID, lines), res)
 
 
 # --------------------------------------------------------------------------- one case, shrinking, run
@@ -1395,7 +1424,7 @@ def _simplifications(case):
                 c = copy.deepcopy(case)
                 c["discs"][di]["outs"][oi][1]["quad"] = {}
                 yield c
-            if o not in couplings(case) and o != case["objective"] and all(o not in ns for ns, _ in case["constraints"]):
+            if o not in couplings(case) and o != case["objective"] and all(o not in c_[0] for c_ in case["constraints"]):
                 c = copy.deepcopy(case)
                 del c["discs"][di]["outs"][oi]
                 c["discs"][di]["declare_linear"] = [t for t in d.get("declare_linear", []) if t != o]
@@ -1455,7 +1484,7 @@ def configs_of_key(msg: str) -> list[str] | None:
     return ks if all(k.startswith(("MDF", "IDF", "Disc")) for k in ks) else None
 
 
-def run_case(res: Result, case, rng_mask, use_lean: bool, origin: str) -> None:
+def run_case(res: Result, case, rng_mask, pending: list | None, origin: str) -> None:
     res.evaluations += 1
     if not valid_case(case):
         res.count("skipped-invalid")
@@ -1491,35 +1520,52 @@ def run_case(res: Result, case, rng_mask, use_lean: bool, origin: str) -> None:
         bad2, _, _ = check_one(small, None, only)
         msg2 = next((m for k, m in bad2 if k == key), msg)
         res.violate("oracle", key, msg2, {"case": small, "origin": origin, "configs": only})
-    if use_lean:
-        dis = compare_with_model(case, list(obs_by_key.values()), mask_recs, res)
-        in_scope_dis = [d for d in dis if d.get("in_scope", True)]
+    if pending is not None:
+        lines, plan, n_def = model_protocol(case, list(obs_by_key.values()), mask_recs)
+        pending.append({"case": case, "origin": origin, "lines": lines, "plan": plan, "n_def": n_def, "bad": bool(bad)})
+
+
+def flush_model(res: Result, pending: list[dict[str, Any]]) -> None:
+    """One Lean driver run for all the pending cases, then the failing-input search on disagreements."""
+    if not pending:
+        return
+    all_lines = [ln for p in pending for ln in p["lines"]]
+    answers = common.run_lean_driver(PID, all_lines)
+    pos = 0
+    for p in pending:
+        n = len(p["lines"])
+        dis = diff_model(p["lines"], p["plan"], p["n_def"], answers[pos : pos + n], res)
+        pos += n
         for d in dis:
             if not d.get("in_scope", True):
                 res.count("probe-disagreement")
-        if in_scope_dis:
-            res.disagreements += len(in_scope_dis)
-            if not bad:
-                # failing-input search: neighbours of the case
-                found = False
-                for cand in _simplifications(case):
-                    if not valid_case(cand):
-                        continue
-                    b2, _, _ = check_one(cand, None)
-                    if b2:
-                        key, msg = b2[0]
-                        res.violate("oracle", key, msg, {"case": cand, "origin": origin + " (neighbour of a model disagreement)"})
-                        found = True
-                        break
-                if not found:
-                    d0 = in_scope_dis[0]
-                    res.violate(
-                        "correspondence",
-                        "model-vs-impl",
-                        f"implementation and Lean model disagree ({d0.get('diff', '')}); no property-violating input found among the neighbours",
-                        {"case": case, "protocol_line": d0["line"], "model": d0["model"], "impl": d0["impl"],
-                         "correspondence": "Driver/C17.lean"},
-                    )
+        in_scope_dis = [d for d in dis if d.get("in_scope", True)]
+        if not in_scope_dis:
+            continue
+        res.disagreements += len(in_scope_dis)
+        if p["bad"]:
+            continue
+        case, origin = p["case"], p["origin"]
+        found = False
+        for cand in _simplifications(case):
+            if not valid_case(cand):
+                continue
+            b2, _, _ = check_one(cand, None)
+            if b2:
+                key, msg = b2[0]
+                res.violate("oracle", key, msg, {"case": cand, "origin": origin + " (neighbour of a model disagreement)"})
+                found = True
+                break
+        if not found:
+            d0 = in_scope_dis[0]
+            res.violate(
+                "correspondence",
+                "model-vs-impl",
+                f"implementation and Lean model disagree ({d0.get('diff', d0.get('cfg', ''))}); no property-violating input found among the neighbours",
+                {"case": case, "protocol_line": d0["line"], "model": d0["model"], "impl": d0["impl"],
+                 "correspondence": "Driver/C17.lean", "origin": origin},
+            )
+    pending.clear()
 
 
 def gen_missing_coupling_case(rng) -> dict[str, Any]:
@@ -1551,9 +1597,10 @@ def run(ctx) -> Result:
     ]
     rng = ctx.rng
     use_lean = (common.LEAN_DIR / "Driver" / f"{PID}.lean").exists() and not os.environ.get("C17_NO_LEAN")
+    pending: list | None = [] if use_lean else None
     n = 400 if ctx.thorough else 36
     for name, case in load_corpus():
-        run_case(res, case, common.make_rng(ctx.seed, "corpus-mask-" + name), use_lean, f"corpus/{name}")
+        run_case(res, case, common.make_rng(ctx.seed, "corpus-mask-" + name), pending, f"corpus/{name}")
         res.count("corpus")
     k = 0
     while k < n and time.time() < ctx.deadline:
@@ -1561,8 +1608,12 @@ def run(ctx) -> Result:
             case = gen_missing_coupling_case(rng)
         else:
             case = gen_case(rng)
-        run_case(res, case, common.make_rng(ctx.seed, f"mask-{k}"), use_lean, f"seed {ctx.seed} case {k}")
+        run_case(res, case, common.make_rng(ctx.seed, f"mask-{k}"), pending, f"seed {ctx.seed} case {k}")
         k += 1
+        if pending is not None and len(pending) >= 60:
+            flush_model(res, pending)
+    if pending is not None:
+        flush_model(res, pending)
     return res
 
 
